@@ -1,5 +1,6 @@
 import LekkerVerif.Properties.C19
 import LekkerVerif.Core.HierPruneSpec
+import LekkerVerif.Core.HierPruneRec
 
 /-! # C19 (continued) — removing children that present no pins does not change what a level solves to
 
@@ -39,3 +40,29 @@ theorem C19_closed_subset_behaves (s s' : List (St F) → Option (Nat × Nat)) (
     (c' : CompD F) (hs' : HNet.solveH s' (HNet.subLevel cs links exposed g) = .ok c') :
     (∀ x ∈ c'.pins, x ∈ c.pins) ∧ ∀ x ∈ c'.pins, ∀ y ∈ c'.pins, c'.sem x y = c.sem x y :=
   HNet.subLevel_behaves_of_closed s s' cs links exposed w c hs g hclosed c' hs'
+
+/-! ### the criterion of `Solver.prune()` itself (Core/HierPruneRec.lean)
+
+The code removes a component whose model has no pins and a sub-solver whose own `prune()` returned `True` (everything under
+it went, all the way down) — `HNet.emptyRec`.  Whatever it removes presents no pin to its parent, at any depth; so no link
+leaves the set of children it keeps, and the level it keeps returns the coefficients of the level. -/
+
+/-- what `prune()` removes presents no pin to its parent (any depth, any branching) -/
+theorem C19_removed_presents_no_pin {F : Type} (h : HNet F) (w : HNet.WFTree h) (he : h.emptyRec = true) :
+    h.pinNames = [] :=
+  (HNet.isDead_iff h).1 (HNet.emptyRec_isDead w he)
+
+/-- every child that presents a pin survives `prune()`; no link of the level leaves the kept set -/
+theorem C19_kept_set_closed {F : Type} (cs : List (HNet F)) (links : List (PinRef × PinRef)) (exposed : List (String × PinRef))
+    (w : HNet.WFTree (.node cs links exposed)) :
+    (∀ i ∈ HNet.liveSet cs, i ∈ HNet.keepSet cs) ∧ ∀ l ∈ links, (l.1.1 ∈ HNet.keepSet cs ↔ l.2.1 ∈ HNet.keepSet cs) := by
+  cases w with
+  | node _ _ _ hch lev => exact ⟨HNet.liveSet_sub_keepSet hch, HNet.keepSet_closed hch lev⟩
+
+/-- **the level `prune()` keeps behaves as the level** (any schedules) -/
+theorem C19_kept_level_behaves (s s' : List (St F) → Option (Nat × Nat)) (cs : List (HNet F))
+    (links : List (PinRef × PinRef)) (exposed : List (String × PinRef)) (w : HNet.WFTree (.node cs links exposed))
+    (c c' : CompD F) (hs : HNet.solveH s (.node cs links exposed) = .ok c)
+    (hs' : HNet.solveH s' (HNet.subLevel cs links exposed (HNet.keepSet cs)) = .ok c') :
+    (∀ x ∈ c'.pins, x ∈ c.pins) ∧ ∀ x ∈ c'.pins, ∀ y ∈ c'.pins, c'.sem x y = c.sem x y :=
+  HNet.keep_preserves s s' cs links exposed w c c' hs hs'
